@@ -251,7 +251,7 @@ func (e *env) fund(ctx sdk.Context, to sdk.AccAddress, denom string, a sdk.Int) 
 	}
 	cs := sdk.Coins{sdk.NewCoin(denom, a)}
 	must(e.app.BankKeeper.MintCoins(ctx, aggtypes.ModuleName, cs))
-	if !to.Equals(aggtypes.ModuleAddress) {
+	if !to.Equals(sdk.AccAddress(aggtypes.ModuleAddress.Bytes())) {
 		// SendCoins (not FromModuleToAccount): the target may be a blocked address in a generated state
 		must(e.app.BankKeeper.SendCoins(ctx, sdk.AccAddress(aggtypes.ModuleAddress.Bytes()), to, cs))
 	}
@@ -605,7 +605,7 @@ func runSpec(e *env, s Spec) (res Result) {
 	}
 	// outgoing view: source = our channel; fund the escrow so that a refund has something to move
 	out := channeltypes.NewPacket(data, s.Seq, port, dst, port, src, clienttypes.NewHeight(1, 1000000), 0)
-	if o.Decoded && o.AmountOK && sdk.ValidateDenom(ftpd.Denom) == nil && amt(o.AmountVal).IsPositive() && amt(o.AmountVal).BitLen() < 200 {
+	if o.Decoded && o.AmountOK && sdk.ValidateDenom(ftpd.Denom) == nil && amt(o.AmountVal).IsPositive() && amt(o.AmountVal).BigInt().BitLen() < 200 {
 		e.fund(ctx, transfertypes.GetEscrowAddress(port, dst), ftpd.Denom, amt(o.AmountVal))
 	}
 	errAck := channeltypes.NewErrorAcknowledgement("verif").Acknowledgement()
